@@ -188,13 +188,19 @@ def check(run, F, tier):
                 if s_["k"] == "assign" and s_["rv"]["k"] == "agg" and "closure" in s_["rv"]:
                     work.append(s_["rv"]["closure"])
     nsup = 0
+
+    def sup_helper(callee):
+        """small private function of a supporting module: analysed in the context of its callers"""
+        return callee.get("kind") in ("Fn", "AssocFn") and not callee.get("pub") and callee.get("file") in SUP and len(callee["blocks"]) <= 14 \
+            and not callee.get("impl_trait")
     for pth in sorted(seen_f):
         g = F.fns[pth]
-        if g["file"] not in SUP or g.get("kind") == "Closure":
+        if g["file"] not in SUP or g.get("kind") == "Closure" or sup_helper(g):
             continue
         nsup += 1
         try:
-            obs, st = panics.collect(F, pth, inline_pred=lambda ex, callee, info: callee.get("kind") == "Closure", facts_hook=C04.consumed_facts)
+            obs, st = panics.collect(F, pth, inline_pred=lambda ex, callee, info: callee.get("kind") == "Closure" or sup_helper(callee),
+                                     facts_hook=C04.consumed_facts)
         except explore.ExploreError as e:
             r1s.violation(panics.short_fn(pth) + "|explore", "cannot explore %s: %s" % (pth, e))
             continue
